@@ -86,6 +86,19 @@ static inline uint32_t cxx_bswap32(uint32_t v)
 { /* htonl/ntohl on the little-endian hosts the repository builds for */
   return (v >> 24) | ((v >> 8) & 0xFF00u) | ((v << 8) & 0xFF0000u) | (v << 24);
 }
+/* std::countl_zero for an unsigned value of width w (w <= 64): number of leading zero bits, w for 0.  Loop-free. */
+static inline int cxx_countl_zero(uint64_t v, int w)
+{
+  if (v == 0) return w;
+  int n = 0;
+  if (!(v >> 32)) { n += 32; v <<= 32; }
+  if (!(v >> 48)) { n += 16; v <<= 16; }
+  if (!(v >> 56)) { n += 8; v <<= 8; }
+  if (!(v >> 60)) { n += 4; v <<= 4; }
+  if (!(v >> 62)) { n += 2; v <<= 2; }
+  if (!(v >> 63)) { n += 1; }
+  return n - (64 - w);
+}
 static inline uint16_t cxx_bswap16(uint16_t v) { return (uint16_t)((v >> 8) | (v << 8)); }
 
 #define CXX_FILL(T, S) \
